@@ -29,6 +29,8 @@ PRED = {"gt-5": "s > -5", "lt99": "s < 99", "ne7": "s != 7", "notnull": "s.notna
         # reads a constant of the class the check is *called for* (every class of a chain defines its own `_limit`)
         "lim": "s < cls._limit"}
 LIMITS = [200, 100, 5, 2, 1]
+REGEX_TARGETS = [{"chr": {"c": "a"}}, {"cls": {"cs": ["b", "c"]}}, {"alt": {"a": {"chr": {"c": "a"}}, "b": {"chr": {"c": "d"}}}},
+                 {"seq": {"a": {"chr": {"c": "a"}}, "b": {"chr": {"c": "_"}}}}, "any"]
 DFPRED = {"rows": "len(df) < 50", "cols": "df.shape[1] < 9"}
 PARSE = {"+1": "s + 1", "*2": "s * 2", "id": "s"}
 CONFIG_OPTS = {"strict": [True, False], "ordered": [True, False], "coerce": [True, False],
@@ -70,8 +72,14 @@ def gen_chain(rng, backend="pandas"):
         if have:
             for m in rng.sample(["c1", "c2", "c3"], rng.choice([0, 1, 1, 2])):
                 tg = rng.sample(have, rng.randint(1, min(2, len(have))))
-                cls["checks"].append({"mname": m, "targets": tg, "regex": False, "pred": rng.choice(sorted(PRED)),
-                                      "name": rng.choice([None, None, f"named_{m}"]), "cls": k})
+                chk = {"mname": m, "targets": tg, "regex": False, "pred": rng.choice(sorted(PRED)),
+                       "name": rng.choice([None, None, f"named_{m}"]), "cls": k}
+                if rng.random() < 0.2:
+                    # fields selected by a pattern that covers only the beginning of their names (`re.match` semantics)
+                    chk["regex"] = True
+                    chk["pats"] = [rng.choice(REGEX_TARGETS)]
+                    chk["targets"] = []
+                cls["checks"].append(chk)
             if backend == "pandas":
                 for m in rng.sample(["p1", "p2"], rng.choice([0, 0, 1])):
                     cls["parsers"].append({"mname": m, "targets": rng.sample(have, 1), "regex": False,
@@ -121,6 +129,11 @@ def field_expr(f):
     return "pa.Field(" + ", ".join(kw) + ")"
 
 
+def A_pat(p_):
+    from . import absdata as A_
+    return A_.pat_render(p_)
+
+
 def class_source(cls, base, pol):
     lines = [f"class {cls['cname']}({base}):"]
     body = [f"_limit = {LIMITS[int(cls['cname'][1:])]}"]
@@ -139,6 +152,9 @@ def class_source(cls, base, pol):
     for m in cls["checks"]:
         kw = f", name={m['name']!r}" if m["name"] else ""
         tg = ", ".join(repr(t) for t in m["targets"])
+        if m.get("regex"):
+            tg = ", ".join(repr(A_pat(p_)) for p_ in m["pats"])
+            kw += ", regex=True"
         expr = PRED[m["pred"]] if not pol else {"gt-5": "s.lazyframe.select(pl.col(s.key) > -5)",
                                                 "lt99": "s.lazyframe.select(pl.col(s.key) < 99)",
                                                 "ne7": "s.lazyframe.select(pl.col(s.key) != 7)",
@@ -210,7 +226,8 @@ def model_case(case):
         chain.append({
             "cname": cls["cname"],
             "fields": [{"attr": f["attr"], "ann": f["ann"], "field": canon_field(f["field"])} for f in cls["fields"]],
-            "checks": [{"mname": m["mname"], "targets": m["targets"], "regex": m["regex"], "payload": payload_check(m)}
+            "checks": [{"mname": m["mname"], "targets": ([{"pat": p_} for p_ in m["pats"]] if m.get("regex") else m["targets"]),
+                        "regex": bool(m.get("regex")), "payload": payload_check(m)}
                        for m in cls["checks"]],
             "dfChecks": [{"mname": m["mname"], "targets": [], "regex": False, "payload": payload_check(m)} for m in cls["dfChecks"]],
             "parsers": [{"mname": m["mname"], "targets": m["targets"], "regex": m["regex"], "payload": payload_parser(m)}
